@@ -589,6 +589,16 @@ func genBroken() {
 	b("package with only _test files", false, map[string]string{"u_test.go": "package PKGDIR\n\nimport \"testing\"\n\nfunc TestX(t *testing.T) {\n\tif !deriveEqual([]int{1}, []int{1}) {\n\t\tt.Fatal()\n\t}\n}\n"})
 	b("package without derive calls", false, map[string]string{"u.go": "package PKGDIR\n\nfunc X() int { return 1 }\n"})
 	b("package without derive calls and a stale derived.gen.go", false, map[string]string{"u.go": "package PKGDIR\n\nfunc X() int { return 1 }\n", "derived.gen.go": "// Code generated by goderive DO NOT EDIT.\n\npackage PKGDIR\n\nfunc deriveOld() {}\n"})
+	// the package had derive calls once (W-C09-A): the file generated for them mentions what is gone now, and must go as well
+	staleSettings := "// Code generated by goderive DO NOT EDIT.\n\npackage PKGDIR\n\n// deriveEqual returns whether this and that are equal.\nfunc deriveEqual(this, that *Settings) bool {\n\treturn (this == nil && that == nil) ||\n\t\tthis != nil && that != nil &&\n\t\t\tthis.Name == that.Name &&\n\t\t\tthis.Tags == that.Tags\n}\n"
+	for _, e := range []struct{ what, user string }{
+		{"the type is gone", "package PKGDIR\n\nfunc Version() int { return 2 }\n"},
+		{"a field is gone and the call replaced by ==", "package PKGDIR\n\ntype Settings struct{ Name string }\n\nfunc Same(a, b *Settings) bool { return *a == *b }\n"},
+		{"the user now has a function of the generated name", "package PKGDIR\n\ntype Settings struct{ Name, Tags string }\n\nfunc deriveEqual(a, b *Settings) bool { return *a == *b }\n\nfunc Same(a, b *Settings) bool { return deriveEqual(a, b) }\n"},
+	} {
+		add(caseT{Family: "broken", What: "package without derive calls any more, derived.gen.go of an earlier version: " + e.what, Call: "deriveEqual",
+			Names: []string{"deriveEqual", "Settings", "derived.gen.go"}, MustOK: true}, map[string]string{"u.go": e.user, "derived.gen.go": staleSettings})
+	}
 	b("truncated derived.gen.go (cut inside an expression)", false, map[string]string{"u.go": goodUser, "derived.gen.go": goodDerivedHead})
 	b("empty derived.gen.go", false, map[string]string{"u.go": goodUser, "derived.gen.go": ""})
 	b("garbage derived.gen.go", false, map[string]string{"u.go": goodUser, "derived.gen.go": "\x00\x7fELF\x01\x02garbage{{{{\n"})
@@ -1935,6 +1945,30 @@ func genNonASCII(prefixes map[string]string) {
 				files["u.go"] = src
 				add(caseT{Family: "nonascii", Plugin: tp.name, What: fmt.Sprintf("type name %s (%d letters, %d bytes), %s", full, len(letters), len(full), variant),
 					Call: fn, Names: []string{fn, full}, MustOK: true}, files)
+			}
+		}
+	}
+	// -autoname makes up a name from the first LETTER of the type name once prefix and prefix_ are taken (W-C10-B)
+	for _, tp := range typedPlugins() {
+		switch tp.name {
+		case "equal", "compare", "hash", "deepcopy", "clone", "gostring":
+		default:
+			continue
+		}
+		fn := prefixes[tp.name]
+		for _, tn := range []string{"Ärger", "Ünit", "世界", "Δ", "𝐀b"} {
+			for _, how := range []string{"three-calls", "user-function"} {
+				params, body := tp.call(fn)
+				src := "package PKGDIR\n\nimport (\n\t\"fmt\"\n\t\"strings\"\n)\n\nvar _ = fmt.Sprint\n\nvar _ = strings.ToUpper\n\ntype " + tn + " struct {\n\tA int\n\tB string\n}\n\ntype S struct{ L []int }\n\n" +
+					"func One(" + params("*S") + ") {\n\t" + body + "\n}\n\n"
+				if how == "three-calls" {
+					src += "func Two(" + params("[]int") + ") {\n\t" + body + "\n}\n\n"
+				} else {
+					src += "func " + fn + "_() {}\n\nfunc callIt() { " + fn + "_() }\n\n"
+				}
+				src += "func Three(" + params(tn) + ") {\n\t" + body + "\n}\n"
+				add(caseT{Family: "nonascii", Plugin: tp.name, What: fmt.Sprintf("-autoname, name made up from the first letter of %s (%s)", tn, how),
+					Call: fn, Names: []string{fn, tn}, MustOK: true, PreArgs: []string{"-autoname"}}, map[string]string{"u.go": src})
 			}
 		}
 	}
